@@ -22,10 +22,14 @@ import (
 )
 
 type ReflInput struct {
-	Mode  string   `json:"mode"`  // ro | query | zero
-	Recv  string   `json:"recv"`  // receiver recipe
-	Calls []RCall  `json:"calls"` // one or several calls (sequences)
-	Seed  uint64   `json:"seed,omitempty"`
+	Mode  string  `json:"mode"`  // ro | query | zero
+	Recv  string  `json:"recv"`  // receiver recipe
+	Calls []RCall `json:"calls"` // one or several calls (sequences)
+	Seed  uint64  `json:"seed,omitempty"`
+	// Held: the state that must not change is that of the instance the
+	// receiver variable pointed to BEFORE the calls (they start with Init,
+	// which re-points the variable to a fresh, writable instance)
+	Held  bool     `json:"held,omitempty"`
 	Tree  *Node    `json:"tree,omitempty"`
 	Names []string `json:"-"`
 }
@@ -301,6 +305,18 @@ func reflRecv(name string) (recv any, isStack bool) {
 		inner := stk.Or().Push("x", "y").SetValidityPolicy(rej)
 		return mk(stk.And()).Push(inner).SetValidityPolicy(rej).SetPushPolicy(func(...any) error { return nil }).
 			SetPresentationPolicy(func(...any) string { return "P" }), true
+	case "closures-ro":
+		// every closure slot filled, then frozen: queries must neither lose nor replace any of them
+		um := func(...any) ([]any, error) { return []any{"U"}, nil }
+		inner := stk.Or().Push("x", "y").SetUnmarshaler(um)
+		inner.SetReadOnly(true)
+		s := mk(stk.And()).Push(inner, stk.Cond("c", stk.Eq, inner)).
+			SetUnmarshaler(um).SetMarshaler(func(...any) error { return nil }).
+			SetEqualityPolicy(func(any, any) error { return nil }).
+			SetPresentationPolicy(func(...any) string { return "P" }).
+			SetValidityPolicy(func(...any) error { return nil })
+		s.SetReadOnly(true)
+		return s, true
 	case "encap-window":
 		// encapsulation schemes given as windows onto one caller-owned table:
 		// the spare capacity behind each is the caller's (and the neighbour's) memory
@@ -321,7 +337,7 @@ func reflRecv(name string) (recv any, isStack bool) {
 
 var otherHandleParent stk.Stack
 
-var reflStackRecvs = []string{"and", "or-sym", "not", "list", "basic", "fifo-mutex", "empty", "policies", "encap-window"}
+var reflStackRecvs = []string{"and", "or-sym", "not", "list", "basic", "fifo-mutex", "empty", "policies", "encap-window", "closures-ro"}
 var reflCondRecvs = []string{"cond", "cond-stack", "cond-init"}
 
 func isZeroVal(v reflect.Value) bool {
@@ -403,7 +419,8 @@ func runRefl(raw json.RawMessage) (res *Result, err error) {
 			dumpIgnoreErr = true
 		}
 	}
-	before := deepDump(pv.Elem().Interface(), 0)
+	heldHandle := pv.Elem().Interface() // a second handle to the instance as it is now
+	before := deepDump(heldHandle, 0)
 	for _, c := range in.Calls {
 		m := pv.MethodByName(c.Method)
 		if !m.IsValid() {
@@ -473,6 +490,9 @@ func runRefl(raw json.RawMessage) (res *Result, err error) {
 		records = append(records, rec)
 	}
 	after := deepDump(pv.Elem().Interface(), 0)
+	if in.Held {
+		after = deepDump(heldHandle, 0)
+	}
 	switch in.Mode {
 	case "ro", "query":
 		if !reflect.DeepEqual(before, after) {
@@ -480,7 +500,7 @@ func runRefl(raw json.RawMessage) (res *Result, err error) {
 			aj, _ := json.Marshal(after)
 			problems = append(problems, fmt.Sprintf("state changed: before=%s after=%s", trunc(string(bj), 600), trunc(string(aj), 600)))
 		}
-		if in.Mode == "ro" && !panicked {
+		if in.Mode == "ro" && !panicked && !in.Held {
 			// clearing the flag restores full mutability
 			if isStack {
 				s := pv.Elem().Interface().(stk.Stack)
@@ -596,6 +616,21 @@ func genRoReflect(ctx *Ctx, emit func(any, string)) {
 			}
 			for v := 0; v < nVariants(r, m); v++ {
 				emit(ReflInput{Mode: "ro", Recv: rn, Calls: []RCall{{m, v}}}, "exhaustive")
+			}
+		}
+	}
+	// Init first (a documented exception: the variable gets a fresh instance),
+	// then any method once: the former, read-only instance - still reachable
+	// through a second handle - must stay exactly as it was
+	for _, rn := range []string{"cond", "cond-stack"} {
+		r, _ := reflRecv(rn)
+		for _, m := range cm {
+			if m == "Init" {
+				continue
+			}
+			nv := nVariants(r, m)
+			for v := 0; v < nv; v++ {
+				emit(ReflInput{Mode: "ro", Recv: rn, Held: true, Calls: []RCall{{"Init", 0}, {m, v}}}, "exhaustive")
 			}
 		}
 	}
